@@ -45,6 +45,7 @@ Definition check_supp (c : supp_case) : N :=
   let c4 := match su_impl c with
             | Ok t => if wf_reach t then 0 else 4
             | Err EngineError => 0
+            | Err OrderLoss => 0       (* ill-formed twice over: an expression sort that would also bury an unsliced sort *)
             | Err _ => 4
             end in
   c1 + c4.
